@@ -206,7 +206,10 @@ def run_check(pid, tier, seed, replay, t0, skip_proofs=False):
             H, M = fh.result(), fm.result()
         log('[%s] ran %d scenarios in %.1fs' % (pid, len(lines), time.time() - t1))
         if len(M) != len(lines) or any(m in ('HANG', 'ABORT') for m in M):
-            print('MODEL-BUG: the Lean driver failed on %d/%d lines' % (sum(1 for m in M if m in ('HANG', 'ABORT')), len(lines)))
+            badl = [l for l, m in zip(lines, M) if m in ('HANG', 'ABORT')]
+            print('MODEL-BUG: the Lean driver failed on %d/%d lines' % (len(badl), len(lines)))
+            with open(os.path.join(ROOT, 'replays', '%s-modelbug.txt' % pid), 'w') as fo:
+                fo.write('\n'.join(badl[:50]) + '\n')
             return 2
         findings, nops, classes = compare_all(prop, lines, H, M)
         nlines = len(lines)
